@@ -4,12 +4,15 @@ import os
 import shutil
 import tempfile
 
-from .. import cfggen, cfgrun, cfgstream, core, ovgen, schemafam as F
+from .. import cfggen, cfgrun, cfgstream, core, ovgen, pkggen, schemafam as F
 
 RULE = ("valid texts of the schema family mutated at character, token and line level (deletion, duplication, "
         "transposition, insertion of every grammar metacharacter); override lists obtained by mutating valid specifiers "
         "(unconvertible values at every depth, unknown keys/sections, malformed specifiers); include graphs over 3 files "
-        "including cyclic ones; validator.main in-process. A case is a violation when an exception outside the "
+        "including cyclic ones; '%include' arguments by class; '%import' / 'package:' references to every kind of importable "
+        "thing (component packages, packages without or with an unreadable component, namespace packages at top level / nested / "
+        "inside a regular package, modules, zip-imported packages, packages whose import fails, missing and ill-formed names); "
+        "validator.main in-process. A case is a violation when an exception outside the "
         "ZConfig configuration-error family escapes (exceptions raised by the zcvdt datatype functions themselves are "
         "excluded). non-trivial = mutated or overridden or including; distinct by (schema, text, overrides)")
 
@@ -156,6 +159,141 @@ def include_arg_cases(ctx, base):
         shutil.rmtree(root, ignore_errors=True)
 
 
+class CountingStream(io.StringIO):
+    def __init__(self):
+        super().__init__()
+        self.messages = 0
+
+    def write(self, t):
+        if t != "\n":
+            self.messages += 1
+        return super().write(t)
+
+
+def import_world(pk):
+    """(kind, dotted name) for every kind of thing a '%import' line or a 'package:' URL can name.  The generated ones live
+    on a scratch sys.path entry; the components are well-formed XML (an ill-formed schema document is outside the property,
+    DESIGN §8) and no package runs code that fails with anything but ImportError (a package's own code is not user input)"""
+    world = [
+        ("component", pk.add_raw_component("<component>\n  <sectiontype name='zcvimptype'>\n    <key name='k'/>\n  </sectiontype>\n</component>\n", "zcvcomp")),
+        ("component-schema-error", pk.add_raw_component("<component>\n  <sectiontype name='zcvimpbad' extends='zcvnosuchtype'/>\n</component>\n", "zcvcompbad")),
+        ("package-without-component", pk.add_plain_package()),
+        ("module", pk.add_module()),
+        ("namespace-package", pk.add_namespace_package()),
+        ("namespace-package-nested", pk.add_namespace_package(nested=True)),
+        ("namespace-package-with-component", pk.add_namespace_package(with_component=True)),
+        ("namespace-portion-of-regular-package", pk.add_plain_subdirectory()),
+        ("component-is-directory", pk.add_unreadable_component("directory")),
+        ("component-not-utf8", pk.add_unreadable_component("not-utf8")),
+        ("import-error", pk.add_import_error_package()),
+    ]
+    zplain, zcomp, zbare = pk.add_zip()
+    world += [("zip-package-without-component", zplain), ("zip-component", zcomp), ("zip-namespace-package", zbare)]
+    pk.refresh()
+    ns, reg = world[4][1], world[2][1]
+    # what is importable anyway: modules and packages of the standard library and of ZConfig itself (its tests' input
+    # directory has no __init__.py in a source checkout, its logger component is a real component)
+    world += [("stdlib:" + n, n) for n in ("os", "os.path", "sys", "email", "email.mime", "xml.sax.handler", "__main__", "builtins")]
+    world += [("zconfig:" + n, n) for n in ("ZConfig", "ZConfig.components", "ZConfig.components.logger", "ZConfig.components.logger.handlers",
+                                            "ZConfig.tests", "ZConfig.tests.input", "ZConfig.tests.library.thing")]
+    # names that do not resolve, and ill-formed names (each derived from a name that does resolve where that matters)
+    world += [("missing", n) for n in ("zcv_no_such_package", "zcv_no_such_package.sub", "os.zcvnosuch", "os.path.zcvnosuch", ns + ".zcvnosuch",
+                                       reg + ".zcvnosuch", reg + ".__init__", reg + ".__path__", ns.upper())]
+    world += [("ill-formed-name", n) for n in ("", ".", "..", "." + ns, ns + ".", ns + "..sub", reg + ".", "a..b", "a b", ns + " x", "a\tb", "a/b", "a\\b",
+                                               "../" + ns, ns + "/", "a\x00b", "\u00e9.\u00e8", "a-b", "1", "1.2", "$zcv", "*", "<" + ns + ">", ns + ":component.xml",
+                                               "package:" + ns, "x" * 300, ".".join(["p"] * 40), "import", "None")]
+    return world
+
+
+def import_arg_cases(ctx, base):
+    """'%import <name>' and '%include package:<name>:<file>' for every kind of importable thing (import_world): at any line
+    of a valid host text, literal and through a %define, loaded by path and from a stream without URL; and the validator on the
+    file.  Real loader only, like include_arg_cases: the observable is the exception family (status and message count for
+    the validator)."""
+    import contextlib
+    import ZConfig
+    from ZConfig import validator
+    rng = ctx.rng
+    root = tempfile.mkdtemp(prefix="zcv-imp-", dir="/dev/shm" if os.path.isdir("/dev/shm") else None)
+    pk = pkggen.PkgRoot()
+    try:
+        world = import_world(pk)
+        nh = 12 if ctx.thorough() else 3
+        # host texts: valid texts that the loader accepts as they are (so that a '%import' that succeeds leaves an accepted text)
+        hosts = []
+        good = [c for c in base if not c.faults]
+        for c in good[:: max(1, len(good) // (4 * nh))]:
+            try:
+                ZConfig.loadConfigFile(c.real, io.StringIO("".join(l + "\n" for l in c.lines)))
+            except Exception:
+                continue
+            hosts.append(c)
+        hosts = hosts[:: max(1, len(hosts) // nh)][:nh] or base[:nh]
+        for hi, c in enumerate(hosts):
+            sp = os.path.join(root, "schema%d.xml" % hi)
+            with open(sp, "w") as f:
+                f.write(F.render_xml(c.sd))
+            for kind, name in world:
+                lit = name.replace("$", "$$")
+                forms = [("import", ["%import " + lit]),
+                         ("import-defined", ["%define zcvp " + lit, "%import $zcvp"]),
+                         ("include-package-component", ["%include package:" + lit + ":component.xml"]),
+                         ("include-package-file", ["%define ZCVP " + lit, "%include package:${zcvp}:" + rng.choice(["x.conf", "data/sample.conf", "../x.conf", "", "__init__.py", "."])])]
+                for form, inc in forms:
+                    lines = list(c.lines)
+                    pos = rng.randint(0, len(lines))
+                    lines[pos:pos] = inc
+                    text = "".join(l + "\n" for l in lines)
+                    p = os.path.join(root, "main.conf")
+                    with open(p, "w", encoding="utf-8", newline="") as f:
+                        f.write(text)
+                    replay = {"schema_xml": F.render_xml(c.sd), "lines": lines, "form": form, "package_kind": kind, "package_name": name,
+                              "package_layout": pk.layout.get(name) or
+                              [{g: pk.layout[g]} for g in pk.layout if g in name] or "nothing generated: importable as it is (standard library / ZConfig) or not at all"}
+                    outs = {}
+                    for entry in ("path", "stream-without-url"):
+                        if entry == "path":
+                            out, _, _ = cfgrun.real_load_path(c.real, p)
+                        else:
+                            try:
+                                ZConfig.loadConfigFile(c.real, io.StringIO(text))
+                                out = ["ok"]
+                            except Exception as e:
+                                out = cfgrun.classify_exc(e)
+                        outs[entry] = out
+                        ctx.evaluations += 1
+                        ctx.count("import-arg:%s:%s:%s" % (form.split("-")[0], kind.split(":")[0], out[0]))
+                        ctx.nontriv(("imparg", id(c.sd), kind, name, form, pos, entry))
+                        if out[0] == "internal":
+                            ctx.violate("%s escaped from %s for %r (%s)" % (out[1], "loadConfig" if entry == "path" else "loadConfigFile (stream without URL)", inc[-1] if len(inc) == 1 else inc, kind),
+                                        dict(replay, impl=out, entry=entry), signature="C07:import-arg:%s" % out[1])
+                    # the validator on the same file: 0 or 1, one message iff invalid, no exception
+                    if form != "import" or outs["path"][0] == "dtexc":
+                        continue
+                    buf = CountingStream()
+                    try:
+                        with contextlib.redirect_stderr(buf), contextlib.redirect_stdout(io.StringIO()):
+                            rc = validator.main(["--schema", sp, p])
+                    except SystemExit as e:
+                        rc = e.code
+                    except Exception as e:
+                        ctx.violate("validator.main raised %s for a file with %r (%s)" % (type(e).__name__, inc[0], kind), dict(replay, entry="validator"),
+                                    signature="C07:validator:" + type(e).__name__)
+                        continue
+                    ctx.evaluations += 1
+                    ctx.count("import-arg:validator:rc=%s" % rc)
+                    if outs["path"][0] == "internal":
+                        continue    # reported above; the validator then has no defined answer
+                    want = 0 if outs["path"][0] == "ok" else 1
+                    if rc != want or buf.messages != want:
+                        ctx.violate("validator status %r with %d message(s) for a file with %r (%s) that loadConfig %s" % (
+                            rc, buf.messages, inc[0], kind, "accepts" if want == 0 else "rejects with a configuration error"),
+                            dict(replay, entry="validator", stderr=buf.getvalue()[:500]), signature="C07:validator:import-arg")
+    finally:
+        pk.close()
+        shutil.rmtree(root, ignore_errors=True)
+
+
 def run(ctx):
     obligations, discharged, names = core.standard_prelude(ctx, ["ZCV.Props.C07"])
     n_s, n_t = (800, 40) if ctx.thorough() else (70, 18)
@@ -204,6 +342,7 @@ def run(ctx):
             ctx.violate("%s escaped from the loading entry point (%s)" % (what, where), dict(c.replay(), impl=c.out),
                         signature="C07:%s:%s" % (where, what))
     include_arg_cases(ctx, base)
+    import_arg_cases(ctx, base)
     # the validator: given a loadable schema, status 0 iff all files valid, else 1 with one message per invalid file
     _validator(ctx, base)
     if cases:
@@ -222,16 +361,6 @@ def _validator(ctx, cases):
     import ZConfig
     from ZConfig import validator
     from ..sexp import Atom
-
-    class CountingStream(io.StringIO):
-        def __init__(self):
-            super().__init__()
-            self.messages = 0
-
-        def write(self, t):
-            if t != "\n":
-                self.messages += 1
-            return super().write(t)
 
     root = tempfile.mkdtemp(prefix="zcv-val-", dir="/dev/shm" if os.path.isdir("/dev/shm") else None)
     try:
